@@ -1,10 +1,12 @@
 import XV.Lemmas.RefinePlay
+import XV.Lemmas.StaleMember
 /-!
-When is a block that `play` accepts replayable on a fresh node? Not always (Props/C01:
-`accepted_block_replayable_refuted`). Here: the hypothesis `H1` of `absorb` derived WITHOUT assuming that the block can be
-replayed — from the tests `play` itself makes (`parentMissing`, `conflicts`, the admission of the new transactions on
-the node) plus the one thing it does not test: no pending member of the block reads, without writing it, a key that an
-earlier transaction of the block writes (`hro`). Then the replay of the block is valid (`play_replayable_form`).
+When is a block that `play` accepts replayable on a fresh node? After the repair of `processUnconfirmTxs` (guard
+`staleMember` of `play`): always (Props/C01: `accepted_block_replayable`; of the code as found it was false, see there).
+Here: the hypothesis `H1` of `absorb` derived WITHOUT assuming that the block can be replayed — from the tests `play`
+itself makes: `parentMissing`, `conflicts`, the admission of the new transactions on the node, and `staleMember` (a
+pending member of the block read, of every key written earlier in the block, the last version written before it;
+`hstale`). Then the replay of the block is valid (`play_replayable_form`).
 Also: admission is monotone in the ledger height, so a valid list of block operations is a successful run of
 `applyBlockTxs` at a single, sufficiently high ledger height.
 -/
@@ -132,8 +134,8 @@ theorem mem_refTxs_ver (t : Tx) (ki : KIn) (hki : ki ∈ t.kin) (v : Ver) (hv : 
   exact ⟨ki, hki, by rw [hv]; rfl⟩
 
 /-- **the hypothesis `H1` of `absorb` for an accepted `play`, without assuming that the block can be replayed.** `hnode`: the
-operations of the node (kept pool, then the block with its kept pending members skipped) are valid on `R`; `hro`: no
-pending member of the block reads, without writing it, a key that an earlier transaction of the block writes. -/
+operations of the node (kept pool, then the block with its kept pending members skipped) are valid on `R`; `hstale`: the
+guard `staleMember` did not fire. -/
 theorem play_H1_noreplay (e : Env) (s : St) (lh : Int) (b : Block) (R : St)
     (hok : (play e s lh b).2 = .ok)
     (hP : PoolOK e s.pool R) (hndP : s.pool.Nodup) (hwB : ∀ i ∈ b.txs, WF e i) (hndB : b.txs.Nodup)
@@ -141,8 +143,7 @@ theorem play_H1_noreplay (e : Env) (s : St) (lh : Int) (b : Block) (R : St)
     (hfreshV : ∀ i ∈ s.pool ++ b.txs, ∀ k o, curVer R k ≠ some (i, o))
     (hnode : pValid e ((s.pool.filter (fun i => !(playEvict e s b).contains i)).map POp.app ++
       skipOps b.prop (fun i => decide (i ∈ s.pool.filter (fun i => !(playEvict e s b).contains i))) b.txs) R)
-    (hro : ∀ i a, [i, a].Sublist b.txs → a ∈ s.pool → ∀ pk ∈ (e.tx a).kin,
-      (∀ ko ∈ (e.tx a).kout, ko.key ≠ pk.key) → ∀ ko ∈ (e.tx i).kout, ko.key ≠ pk.key) :
+    (hstale : staleMember e s.pool [] b.txs = false) :
     ∀ i ∈ b.txs, ∀ a ∈ s.pool.filter (fun i => !(playEvict e s b).contains i), a ≠ i →
       ¬ [a, i].Sublist b.txs →
       (i ∈ s.pool.filter (fun i => !(playEvict e s b).contains i) →
@@ -189,8 +190,71 @@ theorem play_H1_noreplay (e : Env) (s : St) (lh : Int) (b : Block) (R : St)
           have := hnw ko' hko'
           simp [he] at this
         have hwi : ∃ ko ∈ (e.tx i).kout, ko.key = pk.key := ⟨ko, hko, by rw [hkok, hkk]⟩
+        -- a version that `i` read and that a transaction of the block wrote was written strictly before `i`
+        have hbefore : ∀ rv : Ver, ck.ver = some rv → rv.1 ∈ b.txs → rv.1 ∈ pre := by
+          intro rv hckv hrvB
+          by_cases hrvP : rv.1 ∈ s.pool
+          · have := hparents rv.1 (mem_refTxs_ver _ ck hck rv hckv) hrvP
+            simpa using this
+          · -- rv.1 is not pending: at the point of `i` on the node its version can only come from `pre`
+            by_cases hiK : i ∈ s.pool.filter (fun i => !(playEvict e s b).contains i)
+            · exfalso
+              obtain ⟨k1, k2, hKs⟩ := List.append_of_mem hiK
+              obtain ⟨hvK, _⟩ := (pValid_append e _ _ R).mp hnode
+              rw [hKs] at hvK
+              simp only [List.map_append, List.map_cons] at hvK
+              obtain ⟨_, hv2⟩ := (pValid_append e _ _ R).mp hvK
+              obtain ⟨⟨lh1, hadm⟩, _⟩ := (pValid_cons e _ _ _).mp hv2
+              obtain ⟨_, _, hread, _⟩ := XV.C03.admit_sound _ lh1 _ hadm
+              have hcv := hread ck hck
+              rw [hckv] at hcv
+              have hk1 : ∀ x ∈ k1, x ∈ s.pool := fun x hx => hKsub x (by rw [hKs]; simp [hx])
+              rcases prun_curVer e (k1.map POp.app) R ck.key (fun op hop => by
+                obtain ⟨j, hj, rfl⟩ := List.mem_map.mp hop
+                exact (hwP j (hk1 j hj)).id) with h | ⟨w', o', hw', h⟩
+              · rw [h] at hcv
+                exact hfreshV rv.1 (List.mem_append_right _ hrvB) ck.key rv.2 hcv
+              · rw [h] at hcv
+                injection hcv with hcv
+                obtain ⟨j, hj, hje⟩ := List.mem_map.mp hw'
+                injection hje with hje
+                apply hrvP
+                rw [← hcv]
+                simp only
+                rw [← hje]
+                exact hk1 j hj
+            · -- `i` is applied by the block loop of the node
+              have hnode' := hnode
+              rw [hsplit, skipOps_append, skipOps_cons] at hnode'
+              simp only [hiK, decide_false, Bool.false_eq_true, ↓reduceIte] at hnode'
+              rw [← List.append_assoc] at hnode'
+              obtain ⟨_, hv2⟩ := (pValid_append e _ _ R).mp hnode'
+              simp only [List.cons_append, List.nil_append] at hv2
+              obtain ⟨⟨lh1, hadm⟩, _⟩ := (pValid_cons e _ _ _).mp hv2
+              obtain ⟨_, _, hread, _⟩ := XV.C03.admit_sound _ lh1 _ hadm
+              have hcv := hread ck hck
+              rw [hckv] at hcv
+              rcases prun_curVer e ((s.pool.filter (fun i => !(playEvict e s b).contains i)).map POp.app ++
+                  skipOps b.prop (fun i => decide (i ∈ s.pool.filter
+                    (fun i => !(playEvict e s b).contains i))) pre) R ck.key (fun op hop => by
+                rcases List.mem_append.mp hop with h | h
+                · obtain ⟨j, hj, rfl⟩ := List.mem_map.mp h
+                  exact (hwP j (hKsub j hj)).id
+                · exact (hwB _ (hpreB _ (opId_skipOps _ _ _ op h))).id) with h | ⟨w', o', hw', h⟩
+              · rw [h] at hcv
+                exact absurd hcv (hfreshV rv.1 (List.mem_append_right _ hrvB) ck.key rv.2)
+              · rw [h] at hcv
+                injection hcv with hcv
+                have hw'e : w' = rv.1 := by rw [← hcv]
+                rcases List.mem_append.mp hw' with h | h
+                · obtain ⟨j, hj, hje⟩ := List.mem_map.mp h
+                  injection hje with hje
+                  exact absurd (hw'e ▸ hje ▸ hKsub j hj) hrvP
+                · rw [← hw'e]
+                  exact opId_skipOps _ _ _ _ h
         by_cases haB : a ∈ b.txs
-        · -- `a` is a later pending member of the block: excluded by `hro`
+        · -- `a` is a later pending member of the block: by the guard `staleMember` it read the last version written before
+          -- it — a version of `i` or of a later transaction, which `i` (reading the same version) cannot have read
           have hapost : a ∈ post := by
             rw [hsplit] at haB
             rcases List.mem_append.mp haB with h | h
@@ -198,12 +262,20 @@ theorem play_H1_noreplay (e : Env) (s : St) (lh : Int) (b : Block) (R : St)
             · rcases List.mem_cons.mp h with h | h
               · exact absurd h hai
               · exact h
-          have hia : [i, a].Sublist b.txs := by
-            rw [hsplit]
-            exact (List.Sublist.cons_cons i (List.singleton_sublist.mpr hapost)).trans
-              (List.sublist_append_right pre _)
-          obtain ⟨ko', hko', he'⟩ := hwi
-          exact hro i a hia haP pk hpk hnw' ko' hko' he'
+          obtain ⟨p1, p2, hpost⟩ := List.append_of_mem hapost
+          have hsplit2 : b.txs = (pre ++ i :: p1) ++ a :: p2 := by
+            rw [hsplit, hpost]; simp
+          obtain ⟨x, hx, off, hlk⟩ := writtenBy_writer e pre p1 i [] pk.key hwi
+          rw [hsplit2] at hstale
+          have hpv := staleMember_false e s.pool (pre ++ i :: p1) a p2 [] hstale haP pk hpk (x, off) hlk
+          have hxpost : x ∈ i :: post := by
+            rcases List.mem_cons.mp hx with h | h
+            · rw [h]; exact List.mem_cons_self
+            · exact List.mem_cons_of_mem _ (by rw [hpost]; exact List.mem_append_left _ h)
+          have hxB : x ∈ b.txs := by rw [hsplit]; exact List.mem_append_right _ hxpost
+          have hxpre : x ∈ pre := hbefore (x, off) (by rw [hvv, hpv]) hxB
+          rw [hsplit] at hndB
+          exact (List.nodup_append.mp hndB).2.2 x hxpre x hxpost rfl
         · -- `a` stays pending: it has no conflict with the block
           have hcf := playEvict_seed e s b a haP haB hak
           obtain ⟨rv, hrv⟩ := blockVerOf_of_writer e b.txs pk.key i hiB hwi
@@ -212,66 +284,7 @@ theorem play_H1_noreplay (e : Env) (s : St) (lh : Int) (b : Block) (R : St)
             obtain ⟨prew, postw, hw1, hw2⟩ := blockVerOf_some e b.txs pk.key rv hrv
             have hrvB : rv.1 ∈ b.txs := by rw [hw1]; simp
             have hckv : ck.ver = some rv := by rw [hvv, hpv]
-            have hwpre : rv.1 ∈ pre := by
-              by_cases hrvP : rv.1 ∈ s.pool
-              · have := hparents rv.1 (mem_refTxs_ver _ ck hck rv hckv) hrvP
-                simpa using this
-              · -- rv.1 is not pending: at the point of `i` on the node its version can only come from `pre`
-                by_cases hiK : i ∈ s.pool.filter (fun i => !(playEvict e s b).contains i)
-                · exfalso
-                  obtain ⟨k1, k2, hKs⟩ := List.append_of_mem hiK
-                  obtain ⟨hvK, _⟩ := (pValid_append e _ _ R).mp hnode
-                  rw [hKs] at hvK
-                  simp only [List.map_append, List.map_cons] at hvK
-                  obtain ⟨_, hv2⟩ := (pValid_append e _ _ R).mp hvK
-                  obtain ⟨⟨lh1, hadm⟩, _⟩ := (pValid_cons e _ _ _).mp hv2
-                  obtain ⟨_, _, hread, _⟩ := XV.C03.admit_sound _ lh1 _ hadm
-                  have hcv := hread ck hck
-                  rw [hckv] at hcv
-                  have hk1 : ∀ x ∈ k1, x ∈ s.pool := fun x hx => hKsub x (by rw [hKs]; simp [hx])
-                  rcases prun_curVer e (k1.map POp.app) R ck.key (fun op hop => by
-                    obtain ⟨j, hj, rfl⟩ := List.mem_map.mp hop
-                    exact (hwP j (hk1 j hj)).id) with h | ⟨w', o', hw', h⟩
-                  · rw [h] at hcv
-                    exact hfreshV rv.1 (List.mem_append_right _ hrvB) ck.key rv.2 hcv
-                  · rw [h] at hcv
-                    injection hcv with hcv
-                    obtain ⟨j, hj, hje⟩ := List.mem_map.mp hw'
-                    injection hje with hje
-                    apply hrvP
-                    rw [← hcv]
-                    simp only
-                    rw [← hje]
-                    exact hk1 j hj
-                · -- `i` is applied by the block loop of the node
-                  have hnode' := hnode
-                  rw [hsplit, skipOps_append, skipOps_cons] at hnode'
-                  simp only [hiK, decide_false, Bool.false_eq_true, ↓reduceIte] at hnode'
-                  rw [← List.append_assoc] at hnode'
-                  obtain ⟨_, hv2⟩ := (pValid_append e _ _ R).mp hnode'
-                  simp only [List.cons_append, List.nil_append] at hv2
-                  obtain ⟨⟨lh1, hadm⟩, _⟩ := (pValid_cons e _ _ _).mp hv2
-                  obtain ⟨_, _, hread, _⟩ := XV.C03.admit_sound _ lh1 _ hadm
-                  have hcv := hread ck hck
-                  rw [hckv] at hcv
-                  rcases prun_curVer e ((s.pool.filter (fun i => !(playEvict e s b).contains i)).map POp.app ++
-                      skipOps b.prop (fun i => decide (i ∈ s.pool.filter
-                        (fun i => !(playEvict e s b).contains i))) pre) R ck.key (fun op hop => by
-                    rcases List.mem_append.mp hop with h | h
-                    · obtain ⟨j, hj, rfl⟩ := List.mem_map.mp h
-                      exact (hwP j (hKsub j hj)).id
-                    · exact (hwB _ (hpreB _ (opId_skipOps _ _ _ op h))).id) with h | ⟨w', o', hw', h⟩
-                  · rw [h] at hcv
-                    exact absurd hcv (hfreshV rv.1 (List.mem_append_right _ hrvB) ck.key rv.2)
-                  · rw [h] at hcv
-                    injection hcv with hcv
-                    have hw'e : w' = rv.1 := by rw [← hcv]
-                    rcases List.mem_append.mp hw' with h | h
-                    · obtain ⟨j, hj, hje⟩ := List.mem_map.mp h
-                      injection hje with hje
-                      exact absurd (hw'e ▸ hje ▸ hKsub j hj) hrvP
-                    · rw [← hw'e]
-                      exact opId_skipOps _ _ _ _ h
+            have hwpre : rv.1 ∈ pre := hbefore rv hckv hrvB
             have h1 : [rv.1, i].Sublist b.txs := by
               rw [hsplit]
               exact List.Sublist.append (List.singleton_sublist.mpr hwpre)
@@ -317,8 +330,8 @@ theorem play_H1_noreplay (e : Env) (s : St) (lh : Int) (b : Block) (R : St)
     have := playEvict_closedB e s b j hjP hje c hcP hcj hdep
     rw [hck] at this; cases this
 
-/-- **an accepted block whose pending members read no key that an earlier transaction of the block writes (unless they
-write it themselves) can be replayed on `R`**: its operations are valid there. `hs1` / `hK`: the state after the
+/-- **an accepted block can be replayed on `R`**: its operations are valid there (`hstale` follows from `hok`:
+`play_ok_noStale`; it is kept as a parameter to show what is used). `hs1` / `hK`: the state after the
 eviction refines "`R`, then the kept pool", which is valid on `R` (`play_evict_form` and the roll-back theorem). -/
 theorem play_replayable_form (e : Env) (s : St) (lh : Int) (b : Block) (R : St)
     (hok : (play e s lh b).2 = .ok)
@@ -328,8 +341,7 @@ theorem play_replayable_form (e : Env) (s : St) (lh : Int) (b : Block) (R : St)
     (hwB : ∀ i ∈ b.txs, WF e i) (hndB : b.txs.Nodup)
     (hfreshU : ∀ i ∈ s.pool ++ b.txs, ∀ o, lookup R.U (i, o) = none)
     (hfreshV : ∀ i ∈ s.pool ++ b.txs, ∀ k o, curVer R k ≠ some (i, o))
-    (hro : ∀ i a, [i, a].Sublist b.txs → a ∈ s.pool → ∀ pk ∈ (e.tx a).kin,
-      (∀ ko ∈ (e.tx a).kout, ko.key ≠ pk.key) → ∀ ko ∈ (e.tx i).kout, ko.key ≠ pk.key) :
+    (hstale : staleMember e s.pool [] b.txs = false) :
     pValid e (blockOps b.prop b.txs) R := by
   obtain ⟨s2, happ, _⟩ := play_ok_raw e s lh b hok
   have hrun := applyBlockTxs_run e lh b.prop _ b.txs _ s2 happ
@@ -351,7 +363,7 @@ theorem play_replayable_form (e : Env) (s : St) (lh : Int) (b : Block) (R : St)
     rw [prun_apps]
     exact r2
   obtain ⟨vfin, _⟩ := absorb e b.prop b.txs _ R hndB hndK hwB hK.wf hvall
-    (play_H1_noreplay e s lh b R hok hP hndP hwB hndB hfreshU hfreshV hvall hro)
+    (play_H1_noreplay e s lh b R hok hP hndP hwB hndB hfreshU hfreshV hvall hstale)
     (fun i hi a ha => play_H2 e s.pool b.txs R hP hwB
       (fun j hj => hfreshU j (List.mem_append_right _ hj)) i hi a (List.mem_filter.mp ha).1)
   exact ((pValid_append e _ _ R).mp vfin).1
